@@ -78,6 +78,12 @@ def main():
     if tier == 'quick':
         rng.shuffle(scs)
         scs = scs[:70]
+    # a kill right before each file-system mutation of a RESUMED run (the results file already exists)
+    for gz in (False, True):
+        for at in (1, 2, 3, 4):
+            scs.append({'gz': gz, 'steps': [dict(bases[0], target=3, save_freq=1, event={'kind': 'none'}),
+                                           dict(bases[0], target=6, save_freq=2, event={'kind': 'kill_fs', 'at': at}),
+                                           dict(bases[0], target=6, save_freq=2, event={'kind': 'none'})]})
     # smallest targets: a run of ONE trial must leave its trial on disk, and a later run must resume from it
     for gz in (False, True):
         for f in (1, 3):
